@@ -113,6 +113,8 @@ func flavourFlags(f string) []string {
 		return []string{"-tags", "verif,purego"}
 	case "auto":
 		return []string{"-tags", "verif,verifauto"}
+	case "racepurego":
+		return []string{"-tags", "verif,purego", "-race"}
 	}
 	panic("unknown flavour " + f)
 }
